@@ -211,6 +211,14 @@ def programs(rng, tier):
         ax = random_bdd(rng, nv, max_support=min(nv, 6))
         pat = rng.choice([("a", "b", "nb"), ("a", "nb", "b"), ("b", "nb", "a"), ("nb", "b", "a"), ("b", "a", "nb"), ("nb", "a", "b")])
         progs.append([["a", "id", bdd_sx(ax)], ["b", "id", bdd_sx(bx)], ["nb", "not", "$b"], ["r", "ite"] + ["$" + x for x in pat]])
+    # an operation AFTER a user closure panicked inside binary_op on the same thread (caught): it must be unaffected
+    for _ in range(60 if tier == "quick" else 2000):
+        nv = rng.choice([3, 4, 5, 6])
+        x, y, a, b = (random_bdd(rng, nv) for _ in range(4))
+        inner = rng.choice([["named", rng.choice(list(NAMED)), bdd_sx(a), bdd_sx(b)],
+                            ["bin", partial_table(rng, rng.choice(conns)), bdd_sx(a), bdd_sx(b)],
+                            ["ite", bdd_sx(a), bdd_sx(b), bdd_sx(x)], ["not", bdd_sx(a)]])
+        add(["after_panic", str(rng.choice([0, 1, 2, 3, 5, 8, 13])), partial_table(rng, rng.choice(conns), 0.0), bdd_sx(x), bdd_sx(y), inner])
     # variable-count mismatch must panic in both
     for _ in range(20):
         a, b = random_bdd(rng, 3), random_bdd(rng, 4)
@@ -339,6 +347,11 @@ def oracle(call, impl):
 
 def judge(st, V):
     cid, call, impl, model, aux = st
+    if call[0] == "after_panic":
+        # judged as the inner operation (the unwound call before it must leave no trace)
+        V.count("after_panic")
+        call = call[5]
+        st = (cid, call, impl, model, aux)
     V.evaluations += 1
     V.count("op:" + call[0])
     if impl == "SKIP" or not operands_wf(call):
